@@ -25,6 +25,10 @@ type Inst struct {
 	Nth    int    // which invocation (1-based) of Ctor produced it
 	T      string // type name
 	closed int32
+	// rec is the recorder of the case that created the instance: a Close that arrives after
+	// its case is over (a goroutine the code under test left behind) is logged there and
+	// cannot pollute the event log of the case running now
+	rec *Recorder
 }
 
 // Carrier is implemented by every pool service type (through the embedded Inst).
@@ -286,6 +290,7 @@ func (r *Recorder) NewValueInst(i *Inst, typeName string) {
 	r.mu.Lock()
 	r.nextID++
 	i.ID = r.nextID
+	i.rec = r
 	r.mu.Unlock()
 	i.Ctor = -1
 	i.T = typeName
@@ -349,6 +354,7 @@ func Construct(ctor int, outs []*Inst, types []string, args ...any) (Action, err
 	for i, o := range outs {
 		r.nextID++
 		o.ID = r.nextID
+		o.rec = r
 		o.Ctor = ctor
 		o.Out = i
 		o.Nth = nth
@@ -365,7 +371,10 @@ func Construct(ctor int, outs []*Inst, types []string, args ...any) (Action, err
 // OnClose is called by Close() of disposable pool types.
 func OnClose(i *Inst) error {
 	n := atomic.AddInt32(&i.closed, 1)
-	r := cur.Load()
+	r := i.rec
+	if r == nil {
+		r = cur.Load()
+	}
 	if r == nil {
 		return nil
 	}
